@@ -46,7 +46,7 @@ Proof.
         destruct (Nat.eq_dec j a) as [->|Hne]; [exact E|]. apply H2. lia.
 Qed.
 
-Definition is_yield (ev : event) : bool := match ev with SetEpoch _ => false | _ => true end.
+Definition is_yield (ev : event) : bool := match ev with SetEpoch _ => false | IterStart _ => false | _ => true end.
 Definition is_upd (ev : event) : bool := match ev with Main true _ => true | _ => false end.
 (* the (is_full_batch, index) stream without the set_epoch calls *)
 Definition strip (tr : list event) : list event := filter is_yield tr.
@@ -287,8 +287,8 @@ Section G.
     destruct (epoch_hits c mi e) eqn:Hh.
     - injection H as <-. destruct (Hyes eq_refl) as [Ht1 Hlast]. clear Hnot Hyes.
       unfold epoch_events. rewrite Hf. fold EV. unfold bounds.
-      assert (n_main (SetEpoch e :: EV) = n_main EV /\ n_upd (SetEpoch e :: EV) = n_upd EV /\
-              n_yield (SetEpoch e :: EV) = n_yield EV) as (-> & -> & ->) by (repeat split; reflexivity).
+      assert (n_main (SetEpoch e :: IterStart e :: EV) = n_main EV /\ n_upd (SetEpoch e :: IterStart e :: EV) = n_upd EV /\
+              n_yield (SetEpoch e :: IterStart e :: EV) = n_yield EV) as (-> & -> & ->) by (repeat split; reflexivity).
       rewrite P1, P2. split; [|split; [|split; [|split]]]; try lia.
       + intros E Hb He. split; nia.
       + intros U Hb HU. destruct (Z_le_gt_dec (Z.of_nat t) (U - e * upe c)) as [Hle|Hgt]; [exact Hle|exfalso].
@@ -308,9 +308,9 @@ Section G.
       destruct (spec_run c mi (e + 1) (pn_next c mi e pn) n) as [rest|] eqn:E; [|discriminate].
       injection H as <-. specialize (IH _ _ _ E). destruct IH as (B1 & B2 & B3 & B4 & B5).
       unfold epoch_events. rewrite Hf. fold EV. unfold bounds.
-      assert (n_main (SetEpoch e :: EV ++ rest) = n_main EV + n_main rest /\
-              n_upd (SetEpoch e :: EV ++ rest) = n_upd EV + n_upd rest /\
-              n_yield (SetEpoch e :: EV ++ rest) = n_yield EV + n_yield rest) as (-> & -> & ->).
+      assert (n_main (SetEpoch e :: IterStart e :: EV ++ rest) = n_main EV + n_main rest /\
+              n_upd (SetEpoch e :: IterStart e :: EV ++ rest) = n_upd EV + n_upd rest /\
+              n_yield (SetEpoch e :: IterStart e :: EV ++ rest) = n_yield EV + n_yield rest) as (-> & -> & ->).
       { unfold n_main, n_upd, n_yield. rewrite <- !cnt_app. repeat split; reflexivity. }
       rewrite firstn_all in *. rewrite Hlen in *.
       pose proof (counters_last c mi W e) as (L1 & L2 & L3). fold bs in L1, L2, L3.
